@@ -129,6 +129,7 @@ Definition StScheduleNotFound : Z := 40401.
 Definition StLockNotFound : Z := 40402.
 Definition StTaskNotFound : Z := 40403.
 Definition StRecvNotFound : Z := 40404.
+Definition StMatchError : Z := 50002.
 Definition StPromiseAlreadyExists : Z := 40900.
 Definition StScheduleAlreadyExists : Z := 40901.
 Definition StStoreError : Z := 50004.
@@ -367,7 +368,8 @@ Definition task_of_cmd (tc : create_task_cmd) (root : string) : task :=
 Definition set_ct_recv (tc : create_task_cmd) (recv : string) : create_task_cmd :=
   mkCT (ct_id tc) recv (ct_mesg tc) (ct_timeout tc) (ct_pid tc) (ct_state tc) (ct_ttl tc) (ct_exp tc) (ct_created tc).
 
-(* createPromise(): which command the router completion leads to; None = the coroutine returns 40404 *)
+(* createPromise(): which command the router completion leads to; None = the coroutine returns an error
+   (40404: create-with-task on an unrouted promise; 50002: the router could not be consulted) *)
 Definition create_cmd (pc : create_promise_cmd) (tc : option create_task_cmd) (rc : cpl)
   : option (command * option create_task_cmd) :=
   match rc with
@@ -378,11 +380,12 @@ Definition create_cmd (pc : create_promise_cmd) (tc : option create_task_cmd) (r
                               (cp_timeout pc) None TInit 0 0 (cp_created pc)
                end in
     Some (CreatePromiseAndTask pc tc', Some tc')
-  | _ => (* not matched, or the router submission failed *)
+  | CRouter None => (* not matched *)
     match tc with
     | Some _ => None
     | None => Some (CreatePromise pc, None)
     end
+  | _ => None (* the router submission failed: the request fails (50002), nothing is written *)
   end.
 
 Definition claimed_task (t : task) (pid : string) (ttl exp : Z) : task :=
@@ -513,7 +516,7 @@ Definition resume_seq (cfg : config) (k : kont) (c : cpl) (now : Z) (next : nat)
     end
   | KCreate_router r tc0 wt pc =>
     match create_cmd pc tc0 c with
-    | None => out_fin (RspError StRecvNotFound)
+    | None => out_fin (RspError (match c with CRouter _ => StRecvNotFound | _ => StMatchError end))
     | Some (cmd, tc) => out_wait (KCreate_store r tc0 wt pc tc) next (SStore [cmd])
     end
   | KCreate_store r tc0 wt pc tc =>
